@@ -7,8 +7,12 @@ PID = 'C05'
 
 class StopAfterSecondPay:
     """Nothing of C05 is left to decide once the second pay request of a two-set configuration was examined."""
+    n = 2
     def is_terminal(self, m, sc):
-        return len([c for c in m.st.env.calls if c.method == 'pay' and c.state != 'new']) >= 2
+        return len([c for c in m.st.env.calls if c.method == 'pay' and c.state != 'new']) >= self.n
+
+class StopAfterThirdPay(StopAfterSecondPay):
+    n = 3
 
 def main(tier, seed, args):
     rep = Report(PID, tier, seed, 'model_checking')
@@ -21,8 +25,8 @@ def main(tier, seed, args):
     budget = 400 if tier == 'quick' else 3000
     configs = []
     fl = 1 if tier == 'thorough' else 0
-    for name, cfg, pc, kw in scen_payflow.standard_configs(tier, two_sets=('paid', 'error:210'), crash=True, faults=fl, fault_methods=('listsendpays', 'waitsendpay', 'listdatastore')):
-        extra = [StopAfterSecondPay()] if 'first pay ends' in name else []
+    for name, cfg, pc, kw in scen_payflow.standard_configs(tier, two_sets=('paid', 'error:210', 'crash'), crash=True, faults=fl, fault_methods=('listsendpays', 'waitsendpay', 'listdatastore')):
+        extra = ([StopAfterThirdPay()] if 'crash' in name else [StopAfterSecondPay()]) if 'first pay ends' in name else []
         configs.append((name, cfg, pc, extra + [OneAttempt(), Coverage(['response:Resolve'] if 'succeeded' in name else ([] if 'stored=pending' in name else ['pay']))], kw))
     scen_common.run_configs(rep, PID, c, configs, budget)
     finish(rep, [c], './check C05 --tier ' + tier)
